@@ -119,35 +119,78 @@ def with_size(spec, key, value):
 
 def reduce_spec(spec, still_fails, flag_order=None, size_min=None, max_evals=40):
     """
-    Greedy 1-minimal feature ablation: switch each ON flag off (fixed order); keep it off when
-    ``still_fails(variant)``; then lower each size towards its minimum. Returns (minimal spec, evals).
-    Every flag left ON in the result is necessary for the failure (given the others).
+    Feature-ablation reducer (big steps first, every step kept only while ``still_fails(variant)``):
+    all sizes to their minimum (then one by one), all choice streams to the all-zero stream = simplest choices
+    (then one by one), then delta debugging over the ON flags (halves, quarters, ..., single flags).
+    Returns (minimal spec, evals). Every flag left ON is necessary for the failure (given the rest of the spec).
     """
-    evals = 0
-    cur = spec
-    order = [f for f in (flag_order or sorted(spec['flags'])) if spec['flags'].get(f)]
-    changed = True
-    rounds = 0
-    while changed and rounds < 2:
-        changed = False
-        rounds += 1
-        for f in order:
-            if not cur['flags'].get(f) or evals >= max_evals:
-                continue
-            cand = with_flag(cur, f, False)
-            evals += 1
-            if still_fails(cand):
-                cur = cand
-                changed = True
-    for key, lo in sorted((size_min or {}).items()):
-        while cur['n'].get(key, lo) > lo and evals < max_evals:
-            cand = with_size(cur, key, cur['n'][key] - 1)
-            evals += 1
-            if still_fails(cand):
-                cur = cand
-            else:
-                break
-    return cur, evals
+    evals = [0]
+    cur = [spec]
+
+    def attempt(cand):
+        if evals[0] >= max_evals:
+            return False
+        evals[0] += 1
+        if still_fails(cand):
+            cur[0] = cand
+            return True
+        return False
+
+    def set_sizes(keys):
+        c = dict(cur[0])
+        c['n'] = dict(c['n'])
+        for k in keys:
+            c['n'][k] = (size_min or {}).get(k, c['n'][k])
+        return c
+
+    def zero_streams(keys):
+        c = dict(cur[0])
+        c['s'] = dict(c['s'])
+        for k in keys:
+            c['s'][k] = [0]
+        return c
+
+    def flags_off(fl):
+        c = dict(cur[0])
+        c['flags'] = dict(c['flags'])
+        for f in fl:
+            c['flags'][f] = False
+        return c
+
+    def ddmin_flags():
+        order = [f for f in (flag_order or sorted(cur[0]['flags'])) if cur[0]['flags'].get(f)]
+        n = 2
+        while order and evals[0] < max_evals:
+            size = max(1, len(order) // n)
+            chunks = [order[i:i + size] for i in range(0, len(order), size)]
+            removed = False
+            for ch in chunks:
+                if attempt(flags_off(ch)):
+                    order = [f for f in order if f not in ch]
+                    n = max(2, n - 1)
+                    removed = True
+                    break
+            if not removed:
+                if size == 1:
+                    break
+                n = min(len(order), n * 2)
+
+    big = [k for k in sorted(size_min or {}) if cur[0]['n'].get(k, 0) > size_min[k]]
+    if big and not attempt(set_sizes(big)):
+        for k in big:
+            attempt(set_sizes([k]))
+    ddmin_flags()
+    nz = [k for k in sorted(cur[0]['s']) if any(cur[0]['s'][k])]
+    if nz:
+        if attempt(zero_streams(nz)):
+            ddmin_flags()
+        else:
+            ch = False
+            for k in nz:
+                ch = attempt(zero_streams([k])) or ch
+            if ch:
+                ddmin_flags()
+    return cur[0], evals[0]
 
 
 def apply_exclusions(spec, rules):
@@ -198,6 +241,328 @@ def layout_from(g):
     L = gen.gen_layout(g, 'full')
     L.update(semi=False, blank=False, comments=False, trailing=False)
     return L
+
+
+# --------------------------------------------------------------------------- fast pair build
+class PairBuild:
+    """
+    Build + run the ORIGINAL files with the driver in the background (so that the loki step overlaps with
+    gfortran), then build the CANDIDATE files and link them against the driver object compiled for the original
+    (the driver calls the entry routine positionally; its interface is not changed by the transformations).
+    ``stdins``: one run per entry (None = no stdin). A candidate that fails on this fast path is re-checked by
+    the caller with a regular full build, so the shortcut is only ever used to say "outputs equal".
+    """
+    RUN_TIMEOUT = 6
+
+    def __init__(self, files, driver, tag='pair', flags=None, stdins=(None,)):
+        import os
+        import subprocess
+        from .native import FFLAGS
+        from . import harness
+        self.flags = list(FFLAGS if flags is None else flags)
+        self.stdins = list(stdins)
+        self.dir = harness.native().workdir(tag)
+        self.o = os.path.join(self.dir, 'o')
+        self.c = os.path.join(self.dir, 'c')
+        os.makedirs(self.o)
+        os.makedirs(self.c)
+        self.names = [n for n, _ in files]
+        for n, t in files:
+            with open(os.path.join(self.o, n), 'w') as f:
+                f.write(t)
+        with open(os.path.join(self.o, 'main_driver.f90'), 'w') as f:
+            f.write(driver)
+        for d in (self.o, self.c):
+            for i, sin in enumerate(self.stdins):
+                with open(os.path.join(d, f'in{i}'), 'w') as f:
+                    f.write(sin or '')
+        fl = ' '.join(self.flags)
+        objs = ' '.join(os.path.splitext(n)[0] + '.o' for n in self.names)
+        script = (f"gfortran {fl} -c {' '.join(self.names)} main_driver.f90 2> cerr && "
+                  f"gfortran -o prog.x {objs} main_driver.o 2>> cerr && echo ok > built; " + self._runs())
+        self.p = subprocess.Popen(['sh', '-c', script], cwd=self.o)
+        self._orig = None
+
+    def _runs(self):
+        parts = []
+        for i in range(len(self.stdins)):
+            parts.append(f"timeout {self.RUN_TIMEOUT} ./prog.x < in{i} > out{i} 2> err{i}; echo $? > rc{i}")
+        return "if [ -f built ]; then " + '; '.join(parts) + "; fi"
+
+    def _results(self, d):
+        import os
+        from .native import RunResult
+
+        def rd(n):
+            try:
+                with open(os.path.join(d, n), errors='replace') as f:
+                    return f.read()
+            except OSError:
+                return ''
+        if not os.path.exists(os.path.join(d, 'built')):
+            return [RunResult('compile', 1, '', rd('cerr'))]
+        out = []
+        for i in range(len(self.stdins)):
+            rc = rd(f'rc{i}').strip()
+            rc = int(rc) if rc.lstrip('-').isdigit() else -1
+            if rc == 124:
+                out.append(RunResult('run-timeout', -1, rd(f'out{i}'), 'run timeout'))
+            else:
+                out.append(RunResult('run', rc, rd(f'out{i}'), rd(f'err{i}')))
+        return out
+
+    def original(self):
+        if self._orig is None:
+            try:
+                self.p.wait(timeout=300)
+            except Exception:  # noqa
+                self.p.kill()
+            self._orig = self._results(self.o)
+        return self._orig
+
+    def candidate(self, files):
+        import os
+        import subprocess
+        names = [n for n, _ in files]
+        for n, t in files:
+            with open(os.path.join(self.c, n), 'w') as f:
+                f.write(t)
+        fl = ' '.join(self.flags)
+        objs = ' '.join(os.path.splitext(n)[0] + '.o' for n in names)
+        p = subprocess.Popen(['sh', '-c', f"gfortran {fl} -c {' '.join(names)} 2> cerr && echo ok > compiled"], cwd=self.c)
+        self.original()
+        try:
+            p.wait(timeout=300)
+        except Exception:  # noqa
+            p.kill()
+        if os.path.exists(os.path.join(self.c, 'compiled')) and os.path.exists(os.path.join(self.o, 'main_driver.o')):
+            script = f"gfortran -o prog.x {objs} ../o/main_driver.o 2>> cerr && echo ok > built; " + self._runs()
+            try:
+                subprocess.run(['sh', '-c', script], cwd=self.c, timeout=300)
+            except Exception:  # noqa
+                pass
+        return self._results(self.c)
+
+    def close(self):
+        import shutil
+        try:
+            if self.p.poll() is None:
+                self.p.kill()
+        except Exception:  # noqa
+            pass
+        shutil.rmtree(self.dir, ignore_errors=True)
+
+
+class XCheck:
+    """
+    Differential check of one Fortran->Fortran transformation family over spec-built programs
+    (shared by C28 / C33 / C39): evaluate, reduce (feature ablation), sign, report.
+
+    genmod      : module with build(spec), FLAGS, SIZE_MIN
+    apply_fn    : (spec, rendered, meta) -> (candidate files [(name, text)], ir_changed)     [calls loki]
+    executes_fn : (spec, case) -> bool   a construct that the entry point rewrites executes unconditionally
+    ep_opts / opt_baseline : options that matter per entry point and the value the reducer tries to restore
+    """
+
+    def __init__(self, pid, genmod, apply_fn, executes_fn, ep_opts, opt_baseline, exclude_rules, rule_hook=None):
+        self.pid = pid
+        self.gen = genmod
+        self.apply_fn = apply_fn
+        self.executes_fn = executes_fn
+        self.ep_opts = ep_opts
+        self.opt_baseline = opt_baseline
+        self.exclude_rules = exclude_rules
+        self.opt_candidates = {}     # option -> values ordered from simplest; the reducer takes the first that still fails
+
+    # ---- hooks (C39 overrides) -------------------------------------------------------------
+    def driver_and_stdins(self, case):
+        from .native import make_driver
+        return make_driver(case), (None,)
+
+    def compare(self, case, origs, cands):
+        """None when the candidate behaves as required, else (coarse, detail)"""
+        from .native import same_output, first_diff
+        o, c = origs[0], cands[0]
+        if c.stage.startswith('compile'):
+            from .harness import gfortran_error_class
+            return 'candidate-does-not-compile:' + gfortran_error_class(c.err), c.err[-1200:]
+        if not c.ok:
+            return 'candidate-runtime-error', c.brief()
+        if not same_output(o.out, c.out):
+            return 'output-differs', first_diff(o.out, c.out)
+        return None
+
+    def original_ok(self, case, origs):
+        return all(o.ok for o in origs)
+
+    def confirm(self, case, rendered, cand_files, driver, stdins, origs):
+        """full build of the candidate (driver compiled against the candidate modules)"""
+        from . import harness
+        res = []
+        for sin in stdins:
+            res.append(harness.native().build_run('cand', cand_files, driver, stdin=sin, timeout=self_timeout()))
+            if res[-1].stage.startswith('compile'):
+                res = [res[-1]] * len(stdins)
+                break
+        return self.compare(case, origs, res)
+
+    # ---- evaluation -------------------------------------------------------------------------
+    def evaluate(self, spec, known_text=None):
+        """dict(status in ok|ub|reject|fail|same, coarse, detail, nontrivial, classes, case, rendered, exc, candidate)"""
+        from . import harness
+        from ..core import exc_bucket
+        case = self.gen.build(spec)
+        rendered = harness.render_case(case)
+        alltext = '\n'.join(r['text'] for r in rendered)
+        out = {'case': case, 'rendered': rendered, 'text': alltext,
+               'classes': ['ep:' + spec['ep']] + ['f:' + f for f in case['meta']['features']]}
+        if known_text is not None and alltext == known_text:
+            out.update(status='same', coarse=None, detail='', nontrivial=False)
+            return out
+        driver, stdins = self.driver_and_stdins(case)
+        files = [(r['name'], r['text']) for r in rendered]
+        pb = PairBuild(files, driver, stdins=stdins)
+        try:
+            exc = None
+            cand_files, changed = None, False
+            try:
+                cand_files, changed = self.apply_fn(spec, rendered, case['meta'])
+            except Exception as e:  # noqa: loki raised on a generated input -> rejected bucket
+                exc = e
+            origs = pb.original()
+            if origs[0].stage.startswith('compile'):
+                raise harness.GeneratorBug('original program does not compile:\n' + origs[0].err[-1500:] + '\n---\n' + alltext)
+            if not self.original_ok(case, origs):
+                out.update(status='ub', coarse=None, detail=origs[0].brief(), nontrivial=False)
+                return out
+            if exc is not None:
+                out.update(status='reject', coarse='loki-raises:' + exc_bucket(exc), detail=repr(exc)[:400],
+                           nontrivial=False, exc=exc)
+                return out
+            vecs = origs[0].out.split('vector ')
+            varied = len(set(v.split('\n', 1)[1] if '\n' in v else v for v in vecs[1:])) > 1 or \
+                len(set(o.out for o in origs)) > 1
+            executes = self.executes_fn(spec, case)
+            out['nontrivial'] = bool(changed and executes and varied)
+            out['classes'] += ['ir-changed' if changed else 'ir-unchanged'] + (['changed-site-executes'] if executes else []) + \
+                ['site:%s/%s/%s' % (s.get('kind'), s.get('form'), s.get('where')) for s in case['meta'].get('sites', ())
+                 if s.get('form')]
+            out['candidate'] = '\n'.join(t for _, t in cand_files)
+            cands = pb.candidate(cand_files)
+            bad = self.compare(case, origs, cands)
+            if bad is None:
+                out.update(status='ok', coarse=None, detail='')
+                return out
+        finally:
+            pb.close()
+        bad = self.confirm(case, rendered, cand_files, driver, stdins, origs)
+        if bad is None:
+            out.update(status='ok', coarse=None, detail='')
+            return out
+        out.update(status='fail', coarse=bad[0], detail=bad[1])
+        return out
+
+    def compile_only(self, spec):
+        from . import harness
+        case = self.gen.build(spec)
+        rendered = harness.render_case(case)
+        alltext = '\n'.join(r['text'] for r in rendered)
+        try:
+            cand_files, _ = self.apply_fn(spec, rendered, case['meta'])
+        except Exception:  # noqa
+            return alltext, None
+        res = harness.native().build_run('cc', cand_files, None, run=False)
+        if res.stage.startswith('compile'):
+            return alltext, 'candidate-does-not-compile:' + harness.gfortran_error_class(res.err)
+        return alltext, None
+
+    def reduce_failure(self, spec, coarse):
+        from . import harness
+        state = {'text': '\n'.join(r['text'] for r in harness.render_case(self.gen.build(spec)))}
+        conly = coarse.startswith('candidate-does-not-compile')
+
+        def still(variant):
+            same_xf = variant['ep'] == spec['ep'] and variant['opts'] == spec['opts']
+            if conly:
+                text = '\n'.join(r['text'] for r in harness.render_case(self.gen.build(variant)))
+                if same_xf and text == state['text']:
+                    return True
+                text, cls = self.compile_only(variant)
+                good = cls == coarse
+            else:
+                r = self.evaluate(variant, known_text=state['text'] if same_xf else None)
+                if r['status'] == 'same':    # the step did not change the program: take it without running anything
+                    return True
+                text = r['text']
+                good = r['status'] == 'fail' and r['coarse'] == coarse
+            if good and same_xf:
+                state['text'] = text
+            return good
+        cur, _ = reduce_spec(spec, still, flag_order=self.gen.FLAGS, size_min=self.gen.SIZE_MIN, max_evals=60)
+        for k in self.ep_opts.get(cur['ep'], ()):
+            if cur['opts'].get(k) != self.opt_baseline[k]:
+                cand = dict(cur, opts=dict(cur['opts'], **{k: self.opt_baseline[k]}))
+                if still(cand):
+                    cur = cand
+        for k, values in self.opt_candidates.items():
+            for v in values:
+                if v == cur['opts'].get(k):
+                    break
+                cand = dict(cur, opts=dict(cur['opts'], **{k: v}))
+                if still(cand):
+                    cur = cand
+                    break
+        return cur
+
+    def signature(self, spec, coarse):
+        parts = [f for f in self.gen.FLAGS if spec['flags'].get(f)]
+        ep = spec['ep']
+        nb = [f'{k}={spec["opts"].get(k)}' for k in tuple(self.ep_opts.get(ep, ())) + tuple(self.opt_candidates)
+              if spec['opts'].get(k) != self.opt_baseline[k]]
+        if nb:
+            ep += '(' + ','.join(nb) + ')'
+        return f'{self.pid}:{ep}:{coarse}:{"+".join(parts) or "core"}'
+
+    def check_spec(self, spec, ctx, reduce=True):
+        r = self.evaluate(spec)
+        case = {'spec': spec}
+        ctx.case(case, r['nontrivial'], r['classes'] + ([] if r['status'] == 'ok' else ['status:' + r['status']]))
+        if r['status'] == 'ub':
+            ctx.exclude('original-traps-at-runtime(UB)')
+            return
+        if r['status'] == 'reject':
+            ctx.reject(r['exc'], case)
+            return
+        if len(ctx.samples) < 2:
+            ctx.sample({'ep': spec['ep'], 'features': r['case']['meta']['features'], 'source': r['text'][:3500]})
+        if r['status'] != 'fail':
+            return
+        small = self.reduce_failure(spec, r['coarse']) if reduce else spec
+        detail = r['detail']
+        if small is not spec:
+            rs = self.evaluate(small)
+            if rs['status'] == 'fail':
+                detail = rs['detail']
+            else:
+                small = spec
+        ctx.fail(self.signature(small, r['coarse']), {'spec': small}, detail)
+
+    def check_case(self, seedspec, ctx):
+        spec, reasons = apply_exclusions(seedspec, self.exclude_rules)
+        for why in reasons:
+            ctx.exclude(why)
+        if ctx.out_of_time():
+            return
+        self.check_spec(spec, ctx)
+
+    def replay(self, case, ctx):
+        # stored specs are already reduced: sign them as they are (one evaluation per replay)
+        self.check_spec(case['spec'], ctx, reduce=False)
+        return [(s, e['detail']) for s, e in ctx.failures.items()]
+
+
+def self_timeout():
+    return PairBuild.RUN_TIMEOUT
 
 
 # --------------------------------------------------------------------------- C28 profile
@@ -443,9 +808,8 @@ def make_sub(b, g, name, idx, earlier_subs, funs, host=None, internal=False):
     gb = g.sub(sections=F('callee_whole'), reductions=F('callee_whole'))
     body = list(prologue)
     body += gen.gen_body(gb, env, 1, 3)
-    if F('callee_return'):
+    if F('callee_return') and g.chance(50):
         body.append(['if1', gen.log_expr(gb, env, 1), ['return']])
-        b.use('callee_return')
     # make every dummy matter
     rt = env.vars[res_name]['type']
     ins = [d for d in dummies if d['role'] == 'in']
@@ -529,6 +893,10 @@ def make_sub(b, g, name, idx, earlier_subs, funs, host=None, internal=False):
             body += call
             nested_sig = tgt['name']
             b.use('nested')
+    if F('callee_return'):
+        # a plain RETURN as last statement: legal, no effect in the callee, and always executed
+        body.append(['return'])
+        b.use('callee_return')
     r = routine(name, [d['name'] for d in dummies], decls, body)
     sig = {'name': name, 'dummies': dummies, 'internal': internal, 'hread': sorted(hread), 'hwrite': sorted(hwrite),
            'calls': nested_sig, 'kind': 'sub'}
@@ -729,11 +1097,15 @@ def make_call(b, g, env, sig, marked, allow_absent=True, banned_w=(), banned_r=(
                 actuals[nm] = gen.element(g, env, g.pick(env.arrays(t)), 0)
             else:
                 sc = env.scalars(t) + list(env.active_loops if t == 'int' else [])
-                actuals[nm] = var(g.pick(sc)) if sc and g.chance(80) else default_of(t)
+                if sc and g.chance(80):
+                    a = g.pick(sc)
+                    actuals[nm] = gen.designator_for(env, a) if a in env.vars else var(a)
+                else:
+                    actuals[nm] = default_of(t)
             continue
         # scalar inout / out
         sc = [a for a in env.scalars(t, writable=True) if a not in used_w and a not in banned_w
-              and not env.vars[a].get('fuel')]
+              and not env.vars[a].get('fuel') and not env.vars[a].get('path')]
         ar = [a for a in env.arrays(t, writable=True) if a not in used_w and a not in banned_w
               and not env.vars[a].get('path')]
         if F('act_elem') and ar and (g.chance(50) or not sc):
